@@ -59,10 +59,9 @@ def model_check(ctx, pid):
             ctx.machinery_error = "specification self-check failed: RecvMC %s violated %s" % (name, r.violated)
     # vacuity guard: the witnesses must be reachable (TLC must violate them)
     wit = ["W_Reassembled", "W_Protocol", "W_Pong"]
-    r = tlc.run("RecvMC_w", mc_cfg(2, 0, invs=wit, props=()), "%s_RecvMC_w" % pid.lower(),
-                gen=mc_module("RecvMC_w", MC_FRAMES), timeout=600, extra=["-continue"])
-    missing = [w for w in wit if w not in r.violated]
-    ctx.notes["witnesses_reached"] = [w for w in wit if w in r.violated]
+    missing = tlc.witnesses("RecvMC_w", mc_cfg(2, 0, invs=[], props=()), wit, "%s_RecvMC_w" % pid.lower(),
+                            gen=mc_module("RecvMC_w", MC_FRAMES))
+    ctx.notes["witnesses_reached"] = [w for w in wit if w not in missing]
     if missing:
         ctx.machinery_error = "vacuity guard: witnesses not reachable in RecvMC: %s" % missing
 
